@@ -73,6 +73,14 @@ def q_fixed(d):
     obs.update({"x2": str(x2), "q(x2)": str(y2)})
     bad = x <= x2 and y > y2
     return {"status": "confirmed" if bad else "refuted", "observed": obs, "expected": "x <= x2 => q(x) <= q(x2)"}
+  if clause == "int_code":
+    fmt = rep.get("format") or {}
+    step, probe = F(fmt["step"]), F(fmt["probe"])
+    yy = apply(q, [probe])[0]
+    code = yy / step
+    obs.update({"probe_x": str(probe), "q(probe)": str(yy), "step": str(step), "code": str(code)})
+    return {"status": "confirmed" if code.denominator != 1 else "refuted", "observed": obs,
+            "expected": "every output is an integer multiple of the format step"}
   if clause in ("code", "nearest", "sat_lo", "sat_hi"):
     fmt = rep.get("format")
     if fmt is None:
